@@ -90,6 +90,8 @@ type Ctx struct {
 	embTags  int
 	nameSeen map[string]int
 	pureAxDone map[string]bool
+	frameOn  bool               // heap frame of the function under verification is checked
+	frameT   map[string][]*Term // heap key -> objects named by modifies/sets (entry state)
 	bridging bool // abstract fields of concrete request/response objects read their struct fields
 }
 
